@@ -185,7 +185,10 @@ def check_case(case):
 
     # ---- the functions -------------------------------------------------------------------------
     x0 = x.copy()
-    ok_f, y = _call(r, "fwt", lambda: sp.fwt(x, wave_name=wave, axes=axes, level=level))
+    if case.get("seed", 0) % 3 == 0:
+        ok_f, y = _call(r, "fwt", lambda: sp.fwt(x, wave, axes, level))        # documented positional order (input, wave_name, axes, level)
+    else:
+        ok_f, y = _call(r, "fwt", lambda: sp.fwt(x, wave_name=wave, axes=axes, level=level))
     r.check(np.array_equal(x, x0), "fwt:mutates-input", cfg)
     ok_s, gs = _call(r, "get_wavelet_shape", lambda: spw.get_wavelet_shape(tuple(shape), wave, axes, level))
     oshape = slices = None
